@@ -575,4 +575,224 @@ theorem C10_refines (es : List Event) : consume es = reports es := by
   rw [run_closed [] [] inv_nil es, openReports_eq]
   simp [List.map_reverse]
 
+
+/-! ## StreamSummary -/
+theorem fold_gather (rs : List Report) (s : Summary) :
+    (rs.foldl gather s).testsRun = s.testsRun + (rs.filter fun r => r.status != .exist).length
+    ∧ (rs.foldl gather s).errors = s.errors ++ idsWith rs .errors
+    ∧ (rs.foldl gather s).failures = s.failures
+    ∧ (rs.foldl gather s).skipped = s.skipped ++ idsWith rs .skipped
+    ∧ (rs.foldl gather s).expectedFailures = s.expectedFailures ++ idsWith rs .expectedFailures
+    ∧ (rs.foldl gather s).unexpectedSuccesses = s.unexpectedSuccesses ++ idsWith rs .unexpectedSuccesses := by
+  induction rs generalizing s with
+  | nil => simp [idsWith]
+  | cons r rs ih =>
+    simp only [List.foldl_cons]
+    obtain ⟨h1, h2, h3, h4, h5, h6⟩ := ih (gather s r)
+    rw [h1, h2, h3, h4, h5, h6]
+    cases hs : r.status <;>
+      simp [gather, hs, Generated.Stream.counted, Generated.Stream.bucket, Summary.push, idsWith, specBucket,
+        List.filter_cons] <;> omega
+
+theorem summarise_spec (rs : List Report) :
+    (summarise rs).testsRun = (rs.filter fun r => r.status != .exist).length
+    ∧ (summarise rs).errors = idsWith rs .errors
+    ∧ (summarise rs).failures = []
+    ∧ (summarise rs).skipped = idsWith rs .skipped
+    ∧ (summarise rs).expectedFailures = idsWith rs .expectedFailures
+    ∧ (summarise rs).unexpectedSuccesses = idsWith rs .unexpectedSuccesses
+    ∧ (summarise rs).wasSuccessful = (idsWith rs .errors).isEmpty := by
+  obtain ⟨h1, h2, h3, h4, h5, h6⟩ := fold_gather rs Summary.empty
+  simp only [Summary.empty, List.nil_append, Nat.zero_add] at h1 h2 h3 h4 h5 h6
+  simp only [summarise, Summary.empty, h1, h2, h3, h4, h5, h6]
+  simp
+
+theorem failed_iff_bucket (s : Status) : failedOrIncomplete s = (specBucket s == .errors) := by
+  cases s <;> rfl
+
+/-! ## StreamToExtendedDecorator -/
+theorem applyTags_enter (T : List Nat) : applyTags [] T [] = T := by
+  simp [applyTags]
+theorem applyTags_leave (T : List Nat) : applyTags T [] T = [] := by
+  simp [applyTags]
+
+theorem sameSet_refl (T : List Nat) : sameSet T T = true := by
+  simp [sameSet]
+
+theorem timeOk_refl (t : Option Ts) : timeOk t t = true := by
+  cases t <;> simp [timeOk]
+
+/-- reading back the calls `PlaceHolder.run` makes for one report gives one bracket that replays it, and
+leaves no run-level tag behind -/
+theorem interp_bracket (r : Report) (h : r.status ≠ .exist) (τ : Option Ts) (rest : List ExtEv) :
+    ∃ s τ', replays r s = true ∧
+      interp { gtags := [], time := τ, test := none, got := none } (bracket r ++ rest)
+        = (interp { gtags := [], time := τ', test := none, got := none } rest).map (s :: ·) := by
+  obtain ⟨o, ho⟩ : ∃ o, specOutcome r.status = some o := by
+    cases hs : r.status <;> simp_all [specOutcome]
+  simp only [bracket, statusMap_eq, ho]
+  cases h0 : r.ts0 <;> cases h1 : r.ts1 <;>
+    simp only [optTime, List.nil_append, List.cons_append, List.append_nil, interp, applyTags_enter,
+      applyTags_leave, if_true] <;>
+    exact ⟨_, _, by simp [replays, ho, sameSet_refl, h0, h1, timeOk], rfl⟩
+
+theorem interp_brackets (rs : List Report) (h : ∀ r ∈ rs, r.status ≠ .exist) (τ : Option Ts) :
+    ∃ seen, interp { gtags := [], time := τ, test := none, got := none } (rs.map bracket).flatten = some seen
+      ∧ all2 replays rs seen = true := by
+  induction rs generalizing τ with
+  | nil => exact ⟨[], by simp [interp], rfl⟩
+  | cons r rs ih =>
+    obtain ⟨s, τ', hs, hi⟩ := interp_bracket r (h r (by simp)) τ (rs.map bracket).flatten
+    obtain ⟨seen, h1, h2⟩ := ih (fun r' hr' => h r' (by simp [hr'])) τ'
+    refine ⟨s :: seen, ?_, by simp [all2, hs, h2]⟩
+    simp only [List.map_cons, List.flatten_cons, hi, h1, Option.map_some]
+
+theorem body_wrap (mid : List ExtEv) : body ([.startTestRun] ++ mid ++ [.stopTestRun]) = some mid := by
+  simp [body]
+
+/-! a report never has a status that none of its events carried (other than `unknown`) -/
+theorem report_status (tid : Nat) (l : List Event) (c : Bool) (s : Status) (hs : s ≠ .unknown)
+    (h : ∀ e ∈ l, e.status ≠ some s) : (report tid l c).status ≠ s := by
+  simp only [report]
+  cases hl : lastSome (l.map (·.status)) with
+  | none => simpa using fun hh => hs hh.symm
+  | some x =>
+    simp only [Option.getD_some]
+    intro hx; subst hx
+    simp only [lastSome] at hl
+    have := List.mem_of_getLast? hl
+    simp only [List.mem_filterMap, List.mem_map, id] at this
+    obtain ⟨_, ⟨e, he, rfl⟩, he2⟩ := this
+    exact h e he he2
+
+theorem openTail_subset (acc xs : List Event) : ∀ e ∈ openTail acc xs, e ∈ acc ∨ e ∈ xs := by
+  induction xs generalizing acc with
+  | nil => intro e he; exact Or.inl he
+  | cons x xs ih =>
+    intro e he
+    simp only [openTail] at he
+    split at he
+    · rcases ih [] e he with h | h
+      · simp at h
+      · exact Or.inr (List.mem_cons_of_mem _ h)
+    · rcases ih _ e he with h | h
+      · simp only [List.mem_append, List.mem_singleton] at h
+        rcases h with h | h
+        · exact Or.inl h
+        · exact Or.inr (h ▸ List.mem_cons_self)
+      · exact Or.inr (List.mem_cons_of_mem _ h)
+
+theorem cur_subset (k : Key) (es : List Event) : ∀ e ∈ cur k es, e ∈ es := by
+  intro e he
+  rcases openTail_subset [] _ e he with h | h
+  · simp at h
+  · exact (List.mem_filter.mp h).1
+
+theorem closedReports_status (s : Status) (hs : s ≠ .unknown) (pre es : List Event)
+    (h : ∀ e ∈ pre ++ es, e.status ≠ some s) : ∀ r ∈ closedReports pre es, r.status ≠ s := by
+  induction es generalizing pre with
+  | nil => simp [closedReports]
+  | cons e es ih =>
+    intro r hr
+    simp only [closedReports, List.mem_append] at hr
+    rcases hr with hr | hr
+    · cases hk : key e with
+      | none => simp [hk] at hr
+      | some k =>
+        simp only [hk] at hr
+        split at hr
+        · simp only [List.mem_singleton] at hr
+          subst hr
+          apply report_status _ _ _ _ hs
+          intro e' he'
+          simp only [List.mem_append, List.mem_singleton] at he'
+          rcases he' with he' | he'
+          · exact h e' (by simp [cur_subset k pre e' he'])
+          · subst he'; exact h e' (by simp)
+        · simp at hr
+    · exact ih (pre ++ [e]) (by simpa using h) r hr
+
+theorem openReports_status (s : Status) (hs : s ≠ .unknown) (pre es : List Event)
+    (h : ∀ e ∈ pre ++ es, e.status ≠ some s) : ∀ r ∈ openReports pre es, r.status ≠ s := by
+  induction es generalizing pre with
+  | nil => simp [openReports]
+  | cons e es ih =>
+    intro r hr
+    simp only [openReports, List.mem_append] at hr
+    rcases hr with hr | hr
+    · cases hk : key e with
+      | none => simp [hk] at hr
+      | some k =>
+        simp only [hk] at hr
+        split at hr
+        · simp only [List.mem_singleton] at hr
+          subst hr
+          apply report_status _ _ _ _ hs
+          intro e' he'
+          simp only [List.mem_cons] at he'
+          rcases he' with he' | he'
+          · subst he'; exact h e' (by simp)
+          · exact h e' (by simp [(List.mem_filter.mp he').1])
+        · simp at hr
+    · exact ih (pre ++ [e]) (by simpa using h) r hr
+
+theorem reports_status (s : Status) (hs : s ≠ .unknown) (es : List Event) (h : ∀ e ∈ es, e.status ≠ some s) :
+    ∀ r ∈ reports es, r.status ≠ s := by
+  intro r hr
+  simp only [reports, List.mem_append, List.mem_reverse] at hr
+  rcases hr with hr | hr
+  · exact closedReports_status s hs [] es (by simpa using h) r hr
+  · exact openReports_status s hs [] es (by simpa using h) r hr
+
+/-! ## headline: the executable spec holds of the model's trace, for every input -/
+theorem perRun_model (c : List Event → RunTrace → Bool) (hc : ∀ es, c es (modelRun es) = true) (i : Input) :
+    perRun c i (model i) = true := by
+  simp only [perRun, model, List.length_map, beq_self_eq_true, Bool.true_and]
+  generalize i.runs = runs
+  induction runs with
+  | nil => rfl
+  | cons r rs ih => simp [hc r, ih]
+
+
+theorem consume_status (es : List Event) : ∀ r ∈ consume (es.filter fun e => e.status != some .exist), r.status ≠ .exist := by
+  rw [C10_refines]
+  apply reports_status .exist (by decide)
+  intro e he
+  simpa using (List.mem_filter.mp he).2
+
+theorem holds_model (i : Input) : holds i (model i) = true := by
+  simp only [holds, clauses, List.all_cons, List.all_nil, Bool.and_true, Bool.and_eq_true]
+  refine ⟨?_, ?_, ?_, ?_, ?_, ?_⟩
+  · exact perRun_model _ (fun es => by simp [rDict, modelRun, C10_refines]) i
+  · exact perRun_model _ (fun es => by
+      simp [rTestsRun, modelRun, (summarise_spec _).1, C10_refines]) i
+  · exact perRun_model _ (fun es => by
+      obtain ⟨_, _, _, h4, h5, h6, _⟩ := summarise_spec (reports es)
+      simp [rBuckets, modelRun, h4, h5, h6, C10_refines]) i
+  · exact perRun_model _ (fun es => by
+      obtain ⟨_, h2, h3, _⟩ := summarise_spec (reports es)
+      simp [rErrors, modelRun, h2, h3, C10_refines]) i
+  · exact perRun_model _ (fun es => by
+      obtain ⟨_, _, _, _, _, _, h7⟩ := summarise_spec (reports es)
+      simp only [rVerdict, modelRun, C10_refines, h7, Bool.or_eq_true, Bool.not_eq_true',
+        List.any_eq_false, List.isEmpty_eq_false_iff]
+      by_cases hany : ∃ r ∈ reports es, failedOrIncomplete r.status = true
+      · right
+        obtain ⟨r, hr, hf⟩ := hany
+        rw [failed_iff_bucket] at hf
+        intro hnil
+        have : r.id ∈ idsWith (reports es) .errors :=
+          List.mem_map.mpr ⟨r, List.mem_filter.mpr ⟨hr, hf⟩, rfl⟩
+        rw [hnil] at this
+        simp at this
+      · left
+        intro r hr
+        simpa using fun hf => hany ⟨r, hr, hf⟩) i
+  · exact perRun_model _ (fun es => by
+      simp only [rExtended, modelRun, toExtended, body_wrap]
+      obtain ⟨seen, h1, h2⟩ := interp_brackets _ (consume_status es) none
+      have hh : ({} : ISt) = { gtags := [], time := none, test := none, got := none } := rfl
+      rw [hh, h1]
+      simpa [C10_refines] using h2) i
+
 end TTV.Props.C10
